@@ -14,7 +14,7 @@ SAN = os.environ.get("VERIF_SAN", "-fsanitize=address,undefined -fno-sanitize=vp
 OPT = os.environ.get("VERIF_OPT", "-O1")
 CXXFLAGS = (
     "-std=c++17 -g1 -fno-omit-frame-pointer "
-    "-DNDEBUG -DSQFVM_RUNTIME_VERIF -DSQFVM_BUILD -DDISABLE_CLIPBOARD -w "
+    "-DNDEBUG -D_GLIBCXX_ASSERTIONS -DSQFVM_RUNTIME_VERIF -DSQFVM_BUILD -DDISABLE_CLIPBOARD -w "
     f"-I{REPO}/src -I{REPO}/include/tclap-1.2.2/include"
 )
 LDFLAGS = (
